@@ -78,9 +78,9 @@ Fixpoint np_repeat_each {A} (l : list A) (cs : list nat) : list A :=
 (* ------------------------------------------------------------------ lemmas *)
 
 Lemma slice_lo_le n a : slice_lo n a <= n.
-Proof. unfold slice_lo, slice_bound, clamp_index. destruct a as [z|]; [|lia]. destruct (0 <=? z)%Z; lia. Qed.
+Proof. unfold slice_lo, slice_bound, clamp_index. destruct a as [z|]; [|lia]. destruct (0 <=? z)%Z eqn:E; lia. Qed.
 Lemma slice_hi_le n b : slice_hi n b <= n.
-Proof. unfold slice_hi, slice_bound, clamp_index. destruct b as [z|]; [|lia]. destruct (0 <=? z)%Z; lia. Qed.
+Proof. unfold slice_hi, slice_bound, clamp_index. destruct b as [z|]; [|lia]. destruct (0 <=? z)%Z eqn:E; lia. Qed.
 
 Lemma slice_len_in_range lo hi s i : s > 0 -> i < slice_len lo hi s -> lo + i * s < hi.
 Proof.
